@@ -176,11 +176,14 @@ def main():
 
     history = {}     # version -> {handle: (StateVersion, payload)}
 
+    GEN = 'verif_gen_metric'     # a descriptor that the 'toggle' writer creates / removes
+
     def record():
         history[pm.mdib_version] = {
             metric: pm.states.descriptor_handle.get_one(metric).StateVersion,
             'p1': pm.context_states.handle.get_one('p1').StateVersion,
-            'descr': pm.descriptions.handle.get_one(metric).DescriptorVersion}
+            'descr': pm.descriptions.handle.get_one(metric).DescriptorVersion,
+            'gen_exists': pm.descriptions.handle.get_one(GEN, allow_none=True) is not None}
     record()
     counter = [100]
 
@@ -196,6 +199,18 @@ def main():
             with pm.context_state_transaction() as tr:
                 s = tr.get_context_state('p1')
                 s.CoreData.Givenname = f'Ann{counter[0]}'
+        elif kind == 'toggle':
+            import copy as _copy
+            with pm.descriptor_transaction() as tr:
+                if pm.descriptions.handle.get_one(GEN, allow_none=True) is None:
+                    tpl = pm.descriptions.handle.get_one(metric)
+                    d = _copy.deepcopy(tpl)
+                    d.Handle = GEN
+                    d.DescriptorVersion = 0
+                    d.set_source_mds(None)
+                    tr.add_descriptor(d, state_container=pm.data_model.mk_state_container(d))
+                else:
+                    tr.remove_descriptor(GEN)
         else:
             with pm.descriptor_transaction() as tr:
                 d = tr.get_descriptor(metric)
@@ -210,6 +225,9 @@ def main():
         'GetMdStateAll': lambda: get.get_md_state([]),
         'GetMdDescription': lambda: get.get_md_description([metric]),
         'GetMdDescriptionAll': lambda: get.get_md_description([]),
+        # a handle that is created / removed concurrently: the answer must select by the table of the stated version
+        'GetMdDescriptionGen': lambda: get.get_md_description([GEN]),
+        'GetMdStateGen': lambda: get.get_md_state([GEN]),
         'GetContextStates': lambda: ctxc.get_context_states(['p1']),
         'GetContextStatesAll': lambda: ctxc.get_context_states([]),
     }
@@ -280,7 +298,7 @@ def main():
     for name, fn in handlers.items():
         npoints = out['programs'][name]['yield_points']
         for point in range(npoints):
-            for kind in req.get('writer_kinds', ['metric', 'context', 'descr']):
+            for kind in req.get('writer_kinds', ['metric', 'context', 'descr']) + (['toggle', 'toggle'] if name.endswith('Gen') else []):
                 def on_yield(n, point=point, kind=kind):
                     if n == point:
                         t = threading.Thread(target=writer, args=(kind,))
@@ -301,6 +319,8 @@ def main():
                     for s in states:
                         if getattr(s, 'DescriptorHandle', None) == metric and not s.is_context_state:
                             seen[metric] = s.StateVersion
+                elif name == 'GetMdStateGen':
+                    seen['gen_exists'] = any(s.DescriptorHandle == GEN for s in res.result.MdState.State)
                 elif name.startswith('GetMdState'):
                     for s in res.result.MdState.State:
                         if s.DescriptorHandle == metric and not s.is_context_state:
@@ -313,7 +333,10 @@ def main():
                     for d in res.result.MdDescription.Mds if hasattr(res.result, 'MdDescription') else []:
                         pass
                     node = res.p_msg.msg_node if hasattr(res, 'p_msg') else None
-                    if node is not None:
+                    if name == 'GetMdDescriptionGen':
+                        # "returns either all descriptors or none": all iff the requested handle exists at that version
+                        seen['gen_exists'] = node is not None and any(el.get('Handle') == metric for el in node.iter())
+                    elif node is not None:
                         for el in node.iter():
                             if el.get('Handle') == metric and el.get('DescriptorVersion') is not None:
                                 seen['descr'] = int(el.get('DescriptorVersion'))
